@@ -22,6 +22,8 @@ fn main() {
         "c03" => rt.block_on(c03::run(&args, &mut rep)),
         "c04" => rt.block_on(c04::run(&args, &mut rep, "C04")),
         "c05" => rt.block_on(c04::run(&args, &mut rep, "C05")),
+        "c02sync" => rt.block_on(c04::run(&args, &mut rep, "C02")),
+        "c20sync" => rt.block_on(c04::run(&args, &mut rep, "C20")),
         "c09" => rt.block_on(c09::run(&args, &mut rep)),
         "c11" => rt.block_on(c11::run(&args, &mut rep)),
         "c17" => rt.block_on(c17::run(&args, &mut rep)),
